@@ -715,7 +715,49 @@ func rebuild(f []byte, root *Node, level int) []byte {
 	return Assemble(v.H.Hash, int(v.H.HdrSize), level, root, heap, true)
 }
 
+// blankCertsClassic: the archive with its x-signature element dropped and every certificate element of the classic
+// signature blank (empty / white space): a signature without any certificate
+func blankCertsClassic(f []byte) []byte {
+	v, err := Read(f)
+	if err != nil {
+		return nil
+	}
+	root := v.Root.Clone()
+	toc := root.Child("toc")
+	if toc == nil {
+		return nil
+	}
+	sg := toc.Child("signature")
+	if sg == nil {
+		return nil
+	}
+	var cs []*Node
+	findAll(sg, "X509Certificate", &cs)
+	if len(cs) == 0 {
+		return nil
+	}
+	for i, c := range cs {
+		setText(c, []string{"", " \n\t ", "\r\n"}[i%3])
+	}
+	var kids []*Node
+	for _, k := range toc.Kids {
+		if k.Name != "x-signature" {
+			kids = append(kids, k)
+		}
+	}
+	toc.Kids = kids
+	return rebuild(f, root, -1)
+}
+
 func genMalformed(w *bufio.Writer, r *hx.Rng, bases [][]byte, n int, prop string) {
+	done := 0
+	for _, f := range bases {
+		if g := blankCertsClassic(f); g != nil && done < 2 {
+			emitVfyO(w, g, false, oracleField(f))
+			emitOpen(w, g)
+			done++
+		}
+	}
 	for i := 0; i < n; i++ {
 		f := bases[r.Intn(len(bases))]
 		h, _ := ParseHeader(f)
